@@ -4,6 +4,20 @@ use serde_json::Value;
 
 use crate::error::Error;
 
+// Verification seam: with the guard on, whatever this module hands to
+// `print!` / `println!` goes through `crate::verif::emit`.
+#[cfg(jsonlogic_rs_verif)]
+#[allow(unused_macros)]
+macro_rules! println {
+    () => { crate::verif::emit(format_args!(""), true) };
+    ($($arg:tt)*) => { crate::verif::emit(format_args!($($arg)*), true) };
+}
+#[cfg(jsonlogic_rs_verif)]
+#[allow(unused_macros)]
+macro_rules! print {
+    ($($arg:tt)*) => { crate::verif::emit(format_args!($($arg)*), false) };
+}
+
 /// Log the Operation's Value(s)
 ///
 /// The reference implementation ignores any arguments beyond the first,
